@@ -11,13 +11,13 @@ Definition pad_of (a : align) (tw nv : Z) : Z :=
 
 (** where the cell's text starts and ends (rune offsets in its line) *)
 Definition text_start (offs lm : list Z) (c : cell) : Z :=
-  getz offs (c_col c) + getz lm (c_col c) + pad_of (c_align c) (cell_tw offs lm c) (rune_count (c_val c)).
+  getz offs (c_col c) + getz lm (c_col c) + pad_of (eff_align (c_align c) (c_val c)) (cell_tw offs lm c) (rune_count (c_val c)).
 Definition cell_end (offs lm : list Z) (c : cell) : Z := text_start offs lm c + rune_count (c_val c).
 
 Definition cell_pieces (offs lm : list Z) (off : Z) (c : cell) : list bytes :=
   [spaces (getz offs (c_col c) - off);
    spaces (getz lm (c_col c) - rune_count (c_margin c)); c_margin c;
-   spaces (pad_of (c_align c) (cell_tw offs lm c) (rune_count (c_val c))); c_val c].
+   spaces (pad_of (eff_align (c_align c) (c_val c)) (cell_tw offs lm c) (rune_count (c_val c))); c_val c].
 
 Fixpoint pieces (offs lm : list Z) (off : Z) (cs : list cell) : list bytes :=
   match cs with
@@ -43,14 +43,14 @@ Lemma chain_weaken offs lm lo lo' cs : lo' <= lo -> chain offs lm lo cs -> chain
 Proof. destruct cs as [|c r]; cbn [chain]; [auto|]. intros H [H1 H2]. split; [lia|exact H2]. Qed.
 
 Lemma pad_bounds offs lm c : cell_fits offs lm c ->
-  0 <= pad_of (c_align c) (cell_tw offs lm c) (rune_count (c_val c)) /\
+  0 <= pad_of (eff_align (c_align c) (c_val c)) (cell_tw offs lm c) (rune_count (c_val c)) /\
   cell_end offs lm c <= getz offs (c_col c + c_span c).
 Proof.
   intros [Hm Hf]. unfold cell_end, text_start, pad_of, cell_tw.
   pose proof (rune_count_nonneg (c_val c)) as Hv.
   set (tw := getz offs (c_col c + c_span c) - getz offs (c_col c) - getz lm (c_col c)).
   assert (Htw : rune_count (c_val c) <= tw) by (subst tw; lia).
-  destruct (c_align c).
+  destruct (eff_align (c_align c) (c_val c)).
   - split; lia.
   - assert (0 <= Z.quot (tw - rune_count (c_val c)) 2) by (apply Z.quot_pos; lia).
     assert (Z.quot (tw - rune_count (c_val c)) 2 <= tw - rune_count (c_val c))
@@ -59,13 +59,19 @@ Proof.
   - split; subst tw; lia.
 Qed.
 
-(** right-aligned text ends exactly where its span ends *)
-Lemma right_end offs lm c : c_align c = ARight -> cell_end offs lm c = getz offs (c_col c + c_span c).
-Proof. intros H. unfold cell_end, text_start, pad_of, cell_tw. rewrite H. lia. Qed.
+(** right-aligned (non-blank) text ends exactly where its span ends *)
+Lemma right_end offs lm c : c_align c = ARight -> all_blank (c_val c) = false ->
+  cell_end offs lm c = getz offs (c_col c + c_span c).
+Proof. intros H Hb. unfold cell_end, text_start, pad_of, cell_tw, eff_align. rewrite H, Hb. lia. Qed.
 
 (** left-aligned text starts exactly after the column's margin *)
 Lemma left_start offs lm c : c_align c = ALeft -> text_start offs lm c = getz offs (c_col c) + getz lm (c_col c).
-Proof. intros H. unfold text_start, pad_of. rewrite H. lia. Qed.
+Proof. intros H. unfold text_start, pad_of, eff_align. rewrite H. destruct (all_blank (c_val c)); lia. Qed.
+
+(** a blank text is not padded: it follows the column's margin directly *)
+Lemma blank_start offs lm c : all_blank (c_val c) = true ->
+  text_start offs lm c = getz offs (c_col c) + getz lm (c_col c).
+Proof. intros H. unfold text_start, pad_of, eff_align. rewrite H. lia. Qed.
 
 Lemma fmt_pad_nil n : 0 <= n -> fmt_pad n [] = spaces n.
 Proof.
@@ -88,8 +94,9 @@ Proof.
   unfold emit_cell, cell_pieces. cbn [concat]. rewrite app_nil_r.
   rewrite fmt_pad_nil by lia. rewrite fmt_pad_pos by lia.
   assert (Hl : lpad (c_align c) (c_val c) (cell_tw offs lm c) =
-               spaces (pad_of (c_align c) (cell_tw offs lm c) (rune_count (c_val c))) ++ c_val c).
-  { unfold lpad, pad_of in *. destruct (c_align c).
+               spaces (pad_of (eff_align (c_align c) (c_val c)) (cell_tw offs lm c) (rune_count (c_val c))) ++ c_val c).
+  { unfold lpad, lpad_asis, pad_of, eff_align in *. destruct (all_blank (c_val c)); [reflexivity|].
+    destruct (c_align c).
     - reflexivity.
     - rewrite fmt_pad_nil by exact Hp. reflexivity.
     - apply fmt_pad_pos. unfold cell_tw. lia. }
@@ -130,7 +137,7 @@ Lemma pieces_split offs lm : forall pre off c post,
   chain offs lm off (pre ++ c :: post) ->
   exists P, pieces offs lm off (pre ++ c :: post) =
             P ++ [spaces (getz lm (c_col c) - rune_count (c_margin c)); c_margin c;
-                  spaces (pad_of (c_align c) (cell_tw offs lm c) (rune_count (c_val c))); c_val c]
+                  spaces (pad_of (eff_align (c_align c) (c_val c)) (cell_tw offs lm c) (rune_count (c_val c))); c_val c]
               ++ pieces offs lm (cell_end offs lm c) post
          /\ off + width_of P = getz offs (c_col c).
 Proof.
@@ -173,9 +180,9 @@ Proof.
   repeat split; [|lia|unfold text_start; lia|exact He].
   rewrite E, !concat_app. cbn [concat]. rewrite app_nil_r, <- !app_assoc.
   unfold text_start.
-  replace (getz offs (c_col c) + getz lm (c_col c) + pad_of (c_align c) (cell_tw offs lm c) (rune_count (c_val c))
+  replace (getz offs (c_col c) + getz lm (c_col c) + pad_of (eff_align (c_align c) (c_val c)) (cell_tw offs lm c) (rune_count (c_val c))
            - getz offs (c_col c) - getz lm (c_col c))
-    with (pad_of (c_align c) (cell_tw offs lm c) (rune_count (c_val c))) by lia.
+    with (pad_of (eff_align (c_align c) (c_val c)) (cell_tw offs lm c) (rune_count (c_val c))) by lia.
   reflexivity.
 Qed.
 
@@ -221,32 +228,42 @@ Proof.
   exists (concat P), (concat (pieces offs lm (cell_end offs lm c) post)).
   repeat split; [|lia|exact V1].
   rewrite E, !concat_app. cbn [concat]. rewrite app_nil_r, <- !app_assoc. unfold text_start.
-  replace (getz offs (c_col c) + getz lm (c_col c) + pad_of (c_align c) (cell_tw offs lm c) (rune_count (c_val c))
+  replace (getz offs (c_col c) + getz lm (c_col c) + pad_of (eff_align (c_align c) (c_val c)) (cell_tw offs lm c) (rune_count (c_val c))
            - getz offs (c_col c) - getz lm (c_col c))
-    with (pad_of (c_align c) (cell_tw offs lm c) (rune_count (c_val c))) by lia.
+    with (pad_of (eff_align (c_align c) (c_val c)) (cell_tw offs lm c) (rune_count (c_val c))) by lia.
   reflexivity.
 Qed.
 
-(** ** no trailing blanks: a line ends with the text of its last cell (or, for an
-    empty left-aligned text, with its margin): nothing is written after it *)
-Definition tail_text (c : cell) : bytes := match c_val c with [] => c_margin c | v => v end.
+(** ** no trailing blanks: a line ends with the text of its last printed cell and
+    nothing is written after it. [tail_text]: the non-blank text the line ends
+    with - the cell's text, or, when that is blank (empty included), the margin
+    followed by the cell's own blank text (no alignment padding in between) *)
+Definition tail_text (c : cell) : bytes :=
+  if all_blank (c_val c) then c_margin c ++ c_val c else c_val c.
 
 Theorem row_ends_with_last_cell offs lm cs pre c :
   chain offs lm 0 cs -> cs = pre ++ [c] ->
-  (c_val c <> [] \/ c_align c = ALeft) ->
   exists X, emit_row offs lm cs = X ++ tail_text c.
 Proof.
-  intros Hc -> Hne. rewrite emit_row_pieces by exact Hc.
+  intros Hc ->. rewrite emit_row_pieces by exact Hc.
   destruct (pieces_split offs lm pre 0 c [] Hc) as [P [E _]]. rewrite E. cbn [pieces].
   rewrite app_nil_r, concat_app. cbn [concat]. rewrite app_nil_r.
-  unfold tail_text. destruct (c_val c) as [|b v] eqn:Ev.
-  - destruct Hne as [Hne|Ha]; [congruence|].
-    unfold pad_of. rewrite Ha, spaces_0. cbn [app]. rewrite app_nil_r.
+  unfold tail_text, eff_align. destruct (all_blank (c_val c)) eqn:Ev.
+  - unfold pad_of. rewrite spaces_0. cbn [app].
     exists (concat P ++ spaces (getz lm (c_col c) - rune_count (c_margin c))).
-    rewrite <- app_assoc. reflexivity.
-  - exists (concat P ++ spaces (getz lm (c_col c) - rune_count (c_margin c)) ++ c_margin c
-                    ++ spaces (pad_of (c_align c) (cell_tw offs lm c) (rune_count (b :: v)))).
     rewrite <- !app_assoc. reflexivity.
+  - exists (concat P ++ spaces (getz lm (c_col c) - rune_count (c_margin c)) ++ c_margin c
+                    ++ spaces (pad_of (c_align c) (cell_tw offs lm c) (rune_count (c_val c)))).
+    rewrite <- !app_assoc. reflexivity.
+Qed.
+
+(** the text the line ends with is not blank: a printed cell has a non-blank
+    text or a non-blank margin *)
+Lemma tail_text_nonblank c : printed c = true ->
+  if all_blank (c_val c) then all_blank (c_margin c) = false else True.
+Proof.
+  unfold printed. destruct (all_blank (c_val c)); [|trivial].
+  cbn [andb]. intros H. apply Bool.negb_true_iff in H. exact H.
 Qed.
 
 Theorem empty_row_empty_line offs lm : emit_row offs lm [] = [].
